@@ -182,8 +182,11 @@ def _phase2(matrix, basis, basis_set, m, eps, max_iter):
 
         # Bland's rule for leaving: minimum ratio, ties broken by smallest basis index
         leave, min_ratio = -1, float("inf")
+        # Pivot tolerance relative to the column: after many pivots a structural zero carries rounding
+        # noise proportional to the size of the tableau entries, far above an absolute 1e-10.
+        piv_tol = max(eps, 1e-9 * max(abs(matrix[i][enter]) for i in range(m)))
         for i in range(m):
-            if matrix[i][enter] > eps:
+            if matrix[i][enter] > piv_tol:
                 ratio = matrix[i][-1] / matrix[i][enter]
                 if ratio < min_ratio - eps:
                     min_ratio, leave = ratio, i
